@@ -38,6 +38,7 @@ u32 __verif_fshr32(u32 a, u32 b, u32 c); u64 __verif_fshr64(u64 a, u64 b, u64 c)
 u32 __verif_mul32(u32 a, u32 b); u64 __verif_mul64(u64 a, u64 b);
 u32 __verif_udiv32(u32 a, u32 b); u32 __verif_urem32(u32 a, u32 b);
 u64 __verif_udiv64(u64 a, u64 b); u64 __verif_urem64(u64 a, u64 b);
+u32 __verif_sdiv32(u32 a, u32 b); u32 __verif_srem32(u32 a, u32 b);
 extern int __verif_memo_miss;   /* number of products/quotients that did not hit a memo slot */
 
 /* float<->double conversions with the x86 (and IEEE recommended) NaN rule: sign kept, payload truncated/extended, quiet bit set */
